@@ -427,7 +427,7 @@ Qed.
 Lemma check_at_mono s s' i x : sub s s' -> check_at s i x = true -> check_at s' i x = true.
 Proof.
   intros H. unfold check_at. destruct (nth_error s (N.to_nat i)) as [b|] eqn:E; [|discriminate].
-  destruct (Forall2_nth _ _ _ _ _ H E) as (b' & E' & Hb). rewrite E'.
+  destruct (Forall2_nth _ _ _ _ _ H E) as (b' & E' & Hb). unfold sbbf, block in *. rewrite E'.
   apply block_check_gen_mono, Hb.
 Qed.
 
@@ -550,16 +550,491 @@ Qed.
 
 Lemma create_spec n f : create n = Some f ->
   n <= 2^64 - 32 /\ num_blocks f = blocks_for n /\ num_bytes f = 32 * blocks_for n /\
-  data f = repeat 0 (N.to_nat (num_bytes f)) /\ num_bytes f < 2^64.
+  data f = repeat 0 (N.to_nat (num_bytes f)) /\ num_bytes f < 2^64 /\ 0 < blocks_for n.
 Proof.
   unfold create, BLOCK_SIZE, SIZE_MAX, usz, blocks_for.
   change Gen.Consts_gen.Bloom_BLOOM_FILTER_BLOCK_SIZE with 32.
-  change 18446744073709551616 with (2^64).
-  destruct (18446744073709551615 - (32 - 1) <? n) eqn:E; [discriminate|].
-  apply N.ltb_ge in E. change (18446744073709551615 - (32 - 1)) with (2^64 - 32) in E.
-  intros H. inversion H; subst; clear H. cbn [num_blocks num_bytes data].
-  assert (P : 2^64 = 18446744073709551616) by reflexivity.
-  destruct (n <? 32) eqn:E2; [apply N.ltb_lt in E2|apply N.ltb_ge in E2].
-  - change ((32 + 32 - 1) mod 2^64 / 32 * 32) with 64 at 1 2 3 4 5.
-    Fail idtac.
-Abort.
+  change (2^64) with 18446744073709551616.
+  destruct (_ <? n) eqn:E; [discriminate|]. apply N.ltb_ge in E.
+  intros H; inversion H; subst; clear H. cbn [num_blocks num_bytes data].
+  set (m := if n <? 32 then 32 else n).
+  assert (Hm : 32 <= m /\ m <= 18446744073709551616 - 32 /\ (n < 32 -> m = 32) /\ (32 <= n -> m = n)).
+  { unfold m; destruct (n <? 32) eqn:E2; [apply N.ltb_lt in E2|apply N.ltb_ge in E2]; lia. }
+  clearbody m.
+  assert (E1 : (m + 32 - 1) mod 18446744073709551616 = m + 31) by (rewrite N.mod_small; lia).
+  rewrite E1.
+  assert (E2 : ((m + 31) / 32 * 32) mod 18446744073709551616 = (m + 31) / 32 * 32) by (apply N.mod_small; lia).
+  rewrite E2. rewrite N.div_mul by discriminate.
+  assert (E3 : (m + 31) / 32 = N.max 1 ((n + 31) / 32)) by lia.
+  rewrite E3. repeat split; try reflexivity; lia.
+Qed.
+
+Lemma create_none n : create n = None <-> 2^64 - 32 < n.
+Proof.
+  unfold create, BLOCK_SIZE, SIZE_MAX. change Gen.Consts_gen.Bloom_BLOOM_FILTER_BLOCK_SIZE with 32.
+  change (18446744073709551615 - (32 - 1)) with (2^64 - 32).
+  destruct (2^64 - 32 <? n) eqn:E; [apply N.ltb_lt in E|apply N.ltb_ge in E]; split; intros H; try reflexivity;
+    try assumption; [discriminate|lia].
+Qed.
+
+Lemma create_R n f : create n = Some f -> R f (empty (N.to_nat (blocks_for n))).
+Proof.
+  intros H. destruct (create_spec n f H) as (Hn & Hnb & Hby & Hd & Hlt & Hpos).
+  unfold R, nblocks. rewrite empty_length, N2Nat.id. repeat split; try assumption.
+  - rewrite Hd, to_bytes_empty, Hby. f_equal. lia.
+  - apply empty_wf.
+Qed.
+
+(* ------------------------------------------------------------------ sequences of insertions *)
+
+Fixpoint insert_hashes (f : filter) (hs : list N) : res filter :=
+  match hs with
+  | [] => Ok f
+  | h :: t => match insert_hash f h with Ok f' => insert_hashes f' t | Err c => Err c | Fault x => Fault x end
+  end.
+
+(** the same insertions on the specification side, with the block number the C code computes *)
+Definition ins_seq (nb : N) (s : sbbf) (hs : list N) : sbbf :=
+  fold_left (fun s h => insert_at s (BloomModel.block_index h nb) (key h)) hs s.
+
+Lemma R_insert_hashes hs : forall f s, R f s -> Forall w64 hs ->
+  exists f', insert_hashes f hs = Ok f' /\ R f' (ins_seq (num_blocks f) s hs) /\
+             num_blocks f' = num_blocks f /\ num_bytes f' = num_bytes f.
+Proof.
+  induction hs as [|h hs IH]; intros f s HR Hw.
+  - exists f. split; [reflexivity|]. split; [exact HR|]. split; reflexivity.
+  - inversion Hw as [|? ? Hh Hhs]; subst.
+    destruct (R_insert_hash f s h HR Hh) as (f1 & E1 & R1 & NB1 & NY1).
+    destruct (IH f1 _ R1 Hhs) as (f' & E' & R' & NB' & NY').
+    exists f'. cbn [insert_hashes]. rewrite E1. split; [exact E'|]. rewrite NB1 in *.
+    split; [exact R'|]. split; congruence.
+Qed.
+
+Lemma ins_seq_wf nb hs : forall s, wf s -> wf (ins_seq nb s hs).
+Proof. induction hs as [|h hs IH]; intros s H; [exact H|]. apply IH, insert_at_wf, H. Qed.
+
+Lemma ins_seq_length nb hs : forall s, length (ins_seq nb s hs) = length s.
+Proof. induction hs as [|h hs IH]; intros s; [reflexivity|]. cbn [ins_seq fold_left]. fold (ins_seq nb (insert_at s (BloomModel.block_index h nb) (key h)) hs). rewrite IH. apply insert_at_length. Qed.
+
+Lemma ins_seq_sub nb hs : forall s, wf s -> sub s (ins_seq nb s hs).
+Proof.
+  induction hs as [|h hs IH]; intros s H; [apply sub_refl|].
+  eapply sub_trans; [apply (sub_insert_at s (BloomModel.block_index h nb) (key h) H)|].
+  apply IH, insert_at_wf, H.
+Qed.
+
+Lemma ins_seq_contains nb hs : forall s h, wf s -> nb = nblocks s -> 0 < nb -> Forall w64 hs -> In h hs ->
+  check_at (ins_seq nb s hs) (BloomModel.block_index h nb) (key h) = true.
+Proof.
+  induction hs as [|h0 hs IH]; intros s h Hwf Hnb Hpos Hw Hin; [destruct Hin|].
+  inversion Hw as [|? ? Hh0 Hhs]; subst.
+  cbn [ins_seq fold_left]. fold (ins_seq (nblocks s) (insert_at s (BloomModel.block_index h0 (nblocks s)) (key h0)) hs).
+  destruct Hin as [->|Hin].
+  - eapply check_at_mono; [apply ins_seq_sub, insert_at_wf, Hwf|].
+    apply check_after_insert; [exact Hwf|]. apply model_index_lt; assumption.
+  - apply IH; try assumption.
+    + apply insert_at_wf, Hwf.
+    + unfold nblocks. rewrite insert_at_length. reflexivity.
+Qed.
+
+(** for filters of at most 2^32 blocks these are the insertions of the Parquet format *)
+Lemma ins_seq_spec hs : forall s, nblocks s <= 2^32 -> Forall w64 hs ->
+  ins_seq (nblocks s) s hs = fold_left BloomSpec.insert_hash hs s.
+Proof.
+  induction hs as [|h hs IH]; intros s Hnb Hw; [reflexivity|].
+  inversion Hw as [|? ? Hh Hhs]; subst. cbn [ins_seq fold_left].
+  rewrite model_index_eq by assumption. fold (BloomSpec.insert_hash s h).
+  assert (E : nblocks (BloomSpec.insert_hash s h) = nblocks s).
+  { unfold nblocks, BloomSpec.insert_hash. rewrite insert_at_length. reflexivity. }
+  rewrite <- E. apply (IH (BloomSpec.insert_hash s h)); [rewrite E; exact Hnb|exact Hhs].
+Qed.
+
+(* ------------------------------------------------------------------ typed values *)
+
+Definition value_ok (v : value) : Prop := match v with Bytes bs => bytes bs | _ => True end.
+
+Definition mem_of (v : value) : list N :=
+  match v with
+  | I32 z => mem_i32 z | I64 z => mem_i64 z | F32 b => mem_float b | F64 b => mem_double b | Bytes bs => bs
+  end.
+
+(** the typed entry points of the C API *)
+Definition insert_value (f : filter) (v : value) : res filter :=
+  match v with
+  | I32 z => insert_i32 f z | I64 z => insert_i64 f z | F32 b => insert_float f b
+  | F64 b => insert_double f b | Bytes bs => insert_bytes f bs
+  end.
+
+Definition check_value (f : filter) (v : value) : res bool :=
+  match v with
+  | I32 z => check_i32 f z | I64 z => check_i64 f z | F32 b => check_float f b
+  | F64 b => check_double f b | Bytes bs => check_bytes f bs
+  end.
+
+Fixpoint insert_values (f : filter) (vs : list value) : res filter :=
+  match vs with
+  | [] => Ok f
+  | v :: t => match insert_value f v with Ok f' => insert_values f' t | Err c => Err c | Fault x => Fault x end
+  end.
+
+Lemma mem_bytes_le k : forall x, mem_bytes k x = le_bytes k x.
+Proof.
+  induction k as [|k IH]; intro x; [reflexivity|]. cbn [mem_bytes le_bytes]. rewrite IH.
+  change 255 with (N.ones 8). rewrite N.land_ones, N.shiftr_div_pow2. reflexivity.
+Qed.
+
+Lemma le_bytes_bytes k : forall x, bytes (le_bytes k x).
+Proof.
+  induction k as [|k IH]; intro x; cbn [le_bytes]; constructor; [|apply IH].
+  unfold byte. apply N.mod_lt. discriminate.
+Qed.
+
+Lemma mem_of_plain v : mem_of v = plain v.
+Proof. destruct v; cbn [mem_of plain]; unfold mem_i32, mem_i64, mem_float, mem_double; rewrite ?mem_bytes_le; reflexivity. Qed.
+
+Lemma plain_bytes v : value_ok v -> bytes (plain v).
+Proof. destruct v; cbn [plain value_ok]; intros H; try apply le_bytes_bytes. exact H. Qed.
+
+Lemma w64_0 : w64 0.
+Proof. reflexivity. Qed.
+
+Lemma hash_w64 v : value_ok v -> w64 (hash_value v).
+Proof.
+  intros H. unfold hash_value. rewrite <- xxh64_eq_spec by (try apply plain_bytes; try exact H; exact w64_0).
+  apply xxh64_w64.
+Qed.
+
+Lemma with_hash_value {A} v (k : N -> res A) : value_ok v -> with_hash (mem_of v) k = k (hash_value v).
+Proof.
+  intros H. unfold with_hash. rewrite mem_of_plain, xxh64_checked_eq_spec by (try apply plain_bytes; try exact H; exact w64_0).
+  reflexivity.
+Qed.
+
+Lemma insert_value_eq f v : value_ok v -> insert_value f v = insert_hash f (hash_value v).
+Proof. intros H. rewrite <- (with_hash_value v (insert_hash f) H). destruct v; reflexivity. Qed.
+
+Lemma check_value_eq f v : value_ok v -> check_value f v = check_hash f (hash_value v).
+Proof. intros H. rewrite <- (with_hash_value v (check_hash f) H). destruct v; reflexivity. Qed.
+
+Lemma insert_values_eq vs : forall f, Forall value_ok vs -> insert_values f vs = insert_hashes f (map hash_value vs).
+Proof.
+  induction vs as [|v vs IH]; intros f H; [reflexivity|]. inversion H; subst.
+  cbn [insert_values map insert_hashes]. rewrite insert_value_eq by assumption.
+  destruct (insert_hash f (hash_value v)); try reflexivity. apply IH. assumption.
+Qed.
+
+Lemma hashes_w64 vs : Forall value_ok vs -> Forall w64 (map hash_value vs).
+Proof. intros H. induction H; cbn [map]; constructor; [apply hash_w64; assumption|assumption]. Qed.
+
+(* ------------------------------------------------------------------ no false negatives *)
+
+Lemma R_no_false_negative f s hs h : R f s -> Forall w64 hs -> In h hs ->
+  exists f', insert_hashes f hs = Ok f' /\ check_hash f' h = Ok true.
+Proof.
+  intros HR Hw Hin. pose proof HR as (_ & Hnb & _ & Hwf & Hpos & _).
+  destruct (R_insert_hashes hs f s HR Hw) as (f' & E & R' & NB & _).
+  exists f'. split; [exact E|].
+  assert (Hh : w64 h) by (rewrite Forall_forall in Hw; apply Hw, Hin).
+  rewrite (R_check_hash f' _ h R' Hh), NB, Hnb. f_equal.
+  apply ins_seq_contains; try assumption. reflexivity.
+Qed.
+
+Theorem no_false_negative_hash n f hs h : create n = Some f -> Forall w64 hs -> In h hs ->
+  exists f', insert_hashes f hs = Ok f' /\ check_hash f' h = Ok true.
+Proof. intros Hc. apply (R_no_false_negative f _ hs h (create_R n f Hc)). Qed.
+
+Theorem no_false_negative n f vs x : create n = Some f -> Forall value_ok vs -> In x vs ->
+  exists f', insert_values f vs = Ok f' /\ check_value f' x = Ok true.
+Proof.
+  intros Hc Hok Hin.
+  assert (Hx : value_ok x) by (rewrite Forall_forall in Hok; apply Hok, Hin).
+  destruct (no_false_negative_hash n f (map hash_value vs) (hash_value x) Hc (hashes_w64 vs Hok) (in_map _ _ _ Hin))
+    as (f' & E & C).
+  exists f'. rewrite insert_values_eq, check_value_eq by assumption. split; assumption.
+Qed.
+
+(* ------------------------------------------------------------------ fresh filters *)
+
+Theorem fresh_all_false n f : create n = Some f ->
+  (forall h, w64 h -> check_hash f h = Ok false) /\ (forall v, value_ok v -> check_value f v = Ok false).
+Proof.
+  intros Hc. pose proof (create_R n f Hc) as HR.
+  assert (A : forall h, w64 h -> check_hash f h = Ok false).
+  { intros h Hh. rewrite (R_check_hash f _ h HR Hh), empty_check_at. reflexivity. }
+  split; [exact A|]. intros v Hv. rewrite check_value_eq by exact Hv. apply A, hash_w64, Hv.
+Qed.
+
+(* ------------------------------------------------------------------ sizes *)
+
+Theorem size_rounding n :
+  (n <= 2^64 - 32 -> exists f, create n = Some f /\
+       num_bytes f = 32 * N.max 1 ((n + 31) / 32) /\ num_blocks f = N.max 1 ((n + 31) / 32) /\
+       N.of_nat (length (data f)) = num_bytes f /\ Forall (fun b => b = 0) (data f)) /\
+  (2^64 - 32 < n -> create n = None).
+Proof.
+  split.
+  - intros Hn. destruct (create n) as [f|] eqn:E.
+    + destruct (create_spec n f E) as (_ & Hnb & Hby & Hd & _ & _). exists f. split; [reflexivity|].
+      unfold blocks_for in *. repeat split; try assumption.
+      * rewrite Hd, repeat_length, N2Nat.id. reflexivity.
+      * rewrite Hd. apply Forall_forall. intros x Hx. apply repeat_spec in Hx. exact Hx.
+    + apply create_none in E. lia.
+  - apply create_none.
+Qed.
+
+(* ------------------------------------------------------------------ serialise and reload *)
+
+Lemma R_data_length f s : R f s -> N.of_nat (length (data f)) = num_bytes f.
+Proof.
+  intros (Hd & _ & Hby & Hwf & _ & _). rewrite Hd, to_bytes_wbytes, wbytes_length, concat_length_wf by exact Hwf.
+  rewrite Hby. unfold nblocks. lia.
+Qed.
+
+Lemma R_reload f s cap : R f s -> num_bytes f <= cap -> write f cap = Ok (data f) /\ read (data f) = Ok f.
+Proof.
+  intros HR Hcap. pose proof (R_data_length f s HR) as HL. pose proof HR as (_ & Hnb & Hby & _ & Hpos & _).
+  split.
+  - unfold write. destruct (cap <? num_bytes f) eqn:E1; [apply N.ltb_lt in E1; lia|].
+    rewrite HL, N.ltb_irrefl. f_equal. apply firstn_all2. lia.
+  - unfold read, from_data, BLOCK_SIZE. change Gen.Consts_gen.Bloom_BLOOM_FILTER_BLOCK_SIZE with 32.
+    rewrite HL, Hby.
+    destruct (32 * nblocks s <? 32) eqn:E1; [apply N.ltb_lt in E1; lia|].
+    rewrite N.mul_comm, N.mod_mul by discriminate. cbn [N.eqb negb].
+    rewrite N.div_mul by discriminate. destruct f as [d nby nbl]. cbn [data num_bytes num_blocks] in *.
+    rewrite Hby, Hnb, (N.mul_comm 32). reflexivity.
+Qed.
+
+Theorem no_false_negative_after_reload n f vs f' cap :
+  create n = Some f -> Forall value_ok vs -> insert_values f vs = Ok f' -> num_bytes f' <= cap ->
+  exists out g, write f' cap = Ok out /\ read out = Ok g /\ g = f' /\
+                forall x, In x vs -> check_value g x = Ok true.
+Proof.
+  intros Hc Hok Hi Hcap. pose proof (create_R n f Hc) as HR.
+  rewrite insert_values_eq in Hi by exact Hok.
+  destruct (R_insert_hashes _ f _ HR (hashes_w64 vs Hok)) as (f2 & E2 & R2 & _ & _).
+  rewrite Hi in E2. inversion E2; subst f2.
+  destruct (R_reload f' _ cap R2 Hcap) as (W & Rd).
+  exists (data f'), f'. repeat split; try assumption.
+  intros x Hx. destruct (no_false_negative n f vs x Hc Hok Hx) as (f3 & E3 & C3).
+  rewrite insert_values_eq in E3 by exact Hok. rewrite Hi in E3. inversion E3; subst. exact C3.
+Qed.
+
+Lemma write_too_small f cap : cap < num_bytes f -> write f cap = Err E_CARQUET_ERROR_ENCODE.
+Proof. intros H. unfold write. apply N.ltb_lt in H. rewrite H. reflexivity. Qed.
+
+Lemma read_bad_size bs : (N.of_nat (length bs) < 32 \/ N.of_nat (length bs) mod 32 <> 0) ->
+  read bs = Err E_CARQUET_ERROR_OUT_OF_MEMORY.
+Proof.
+  intros H. unfold read, from_data, BLOCK_SIZE. change Gen.Consts_gen.Bloom_BLOOM_FILTER_BLOCK_SIZE with 32.
+  destruct (N.of_nat (length bs) <? 32) eqn:E1; [reflexivity|]. apply N.ltb_ge in E1.
+  destruct H as [H|H]; [lia|]. apply N.eqb_neq in H. rewrite H. reflexivity.
+Qed.
+
+(* ------------------------------------------------------------------ merge *)
+
+Lemma or_loop_map2 d : forall s, length d = length s -> or_loop (length d) d s = Ok (map2 N.lor d s).
+Proof.
+  induction d as [|x d IH]; intros [|y s] H; cbn [length] in H; try lia; [reflexivity|].
+  cbn [length or_loop map2]. rewrite IH by lia. reflexivity.
+Qed.
+
+Lemma le_bytes_lor k : forall a b, le_bytes k (N.lor a b) = map2 N.lor (le_bytes k a) (le_bytes k b).
+Proof.
+  induction k as [|k IH]; intros a b; [reflexivity|]. cbn [le_bytes map2]. f_equal.
+  - change 256 with (2^8). rewrite <- !N.land_ones. apply N.land_lor_distr_l.
+  - change 256 with (2^8). rewrite <- !N.shiftr_div_pow2, N.shiftr_lor. apply IH.
+Qed.
+
+Lemma map2_app {A B C} (f : A -> B -> C) a1 : forall b1 a2 b2, length a1 = length b1 ->
+  map2 f (a1 ++ a2) (b1 ++ b2) = map2 f a1 b1 ++ map2 f a2 b2.
+Proof.
+  induction a1 as [|x a1 IH]; intros [|y b1] a2 b2 H; cbn [length] in H; try lia; [reflexivity|].
+  cbn [app map2]. rewrite IH by lia. reflexivity.
+Qed.
+
+Lemma le_bytes_length k : forall x, length (le_bytes k x) = k.
+Proof. induction k as [|k IH]; intro x; [reflexivity|]. cbn [le_bytes length]. rewrite IH. reflexivity. Qed.
+
+Lemma wbytes_lor ws : forall vs, length ws = length vs ->
+  wbytes (map2 N.lor ws vs) = map2 N.lor (wbytes ws) (wbytes vs).
+Proof.
+  induction ws as [|w ws IH]; intros [|v vs] H; cbn [length] in H; try lia; [reflexivity|].
+  unfold wbytes in *. cbn [map2 flat_map]. rewrite map2_app by (rewrite !le_bytes_length; reflexivity).
+  rewrite le_bytes_lor, IH by lia. reflexivity.
+Qed.
+
+Lemma concat_union s : forall t, wf s -> wf t -> length s = length t ->
+  concat (union s t) = map2 N.lor (concat s) (concat t).
+Proof.
+  induction s as [|x s IH]; intros [|y t] Hs Ht L; cbn [length] in L; try lia; [reflexivity|].
+  inversion Hs as [|? ? [Lx _] Hs']; inversion Ht as [|? ? [Ly _] Ht']; subst.
+  cbn [union map2 concat]. rewrite map2_app by congruence. f_equal. apply IH; [assumption|assumption|lia].
+Qed.
+
+Lemma R_merge a b s t : R a s -> R b t -> num_bytes a = num_bytes b ->
+  exists m, merge a b = Ok m /\ R m (union s t) /\ num_blocks m = num_blocks a /\
+            data m = map2 N.lor (data a) (data b).
+Proof.
+  intros Ra Rb Heq. pose proof (R_data_length a s Ra) as La. pose proof (R_data_length b t Rb) as Lb.
+  pose proof Ra as (Hda & Hnba & Hbya & Hwfa & Hposa & Hlta).
+  pose proof Rb as (Hdb & Hnbb & Hbyb & Hwfb & Hposb & Hltb).
+  assert (Hn : nblocks s = nblocks t) by lia.
+  assert (Hl : length s = length t) by (unfold nblocks in Hn; lia).
+  unfold merge. rewrite Heq, N.eqb_refl. cbn [negb].
+  replace (N.to_nat (num_bytes b)) with (length (data a)) by lia.
+  rewrite or_loop_map2 by lia.
+  eexists. split; [reflexivity|]. split; [|split; reflexivity].
+  unfold R, set_data. cbn [data num_bytes num_blocks]. unfold nblocks. rewrite union_length by exact Hl.
+  fold (nblocks s). repeat split; try assumption.
+  - rewrite Hda, Hdb, !to_bytes_wbytes, concat_union by assumption. apply eq_sym, wbytes_lor.
+    rewrite !concat_length_wf by assumption. lia.
+  - apply union_wf; assumption.
+Qed.
+
+(** the state reached by a sequence of typed insertions *)
+Lemma inserted_state n f vs f' : create n = Some f -> Forall value_ok vs -> insert_values f vs = Ok f' ->
+  exists s, R f' s /\ num_blocks f' = blocks_for n /\
+    forall x, In x vs ->
+      check_at s (BloomModel.block_index (hash_value x) (num_blocks f')) (key (hash_value x)) = true.
+Proof.
+  intros Hc Hok Hi. pose proof (create_R n f Hc) as HR. pose proof HR as (_ & Hnb & _ & Hwf & Hpos & _).
+  rewrite insert_values_eq in Hi by exact Hok.
+  destruct (R_insert_hashes _ f _ HR (hashes_w64 vs Hok)) as (f2 & E2 & R2 & NB & _).
+  rewrite Hi in E2. inversion E2; subst f2. eexists. split; [exact R2|]. split.
+  - rewrite NB. apply (create_spec n f Hc).
+  - intros x Hx. rewrite NB, Hnb. apply ins_seq_contains; try assumption; try reflexivity.
+    + apply hashes_w64, Hok.
+    + apply in_map, Hx.
+Qed.
+
+Theorem merge_union na nb fa fb va vb a b :
+  create na = Some fa -> create nb = Some fb -> Forall value_ok va -> Forall value_ok vb ->
+  insert_values fa va = Ok a -> insert_values fb vb = Ok b ->
+  (num_bytes a = num_bytes b ->
+     exists m, merge a b = Ok m /\ data m = map2 N.lor (data a) (data b) /\
+               forall x, In x va \/ In x vb -> check_value m x = Ok true) /\
+  (num_bytes a <> num_bytes b -> merge a b = Err E_CARQUET_ERROR_INVALID_ARGUMENT).
+Proof.
+  intros Hca Hcb Hoka Hokb Hia Hib. split.
+  - intros Heq.
+    destruct (inserted_state na fa va a Hca Hoka Hia) as (s & Ra & _ & Ca).
+    destruct (inserted_state nb fb vb b Hcb Hokb Hib) as (t & Rb & _ & Cb).
+    destruct (R_merge a b s t Ra Rb Heq) as (m & Em & Rm & NBm & Dm).
+    exists m. split; [exact Em|]. split; [exact Dm|].
+    pose proof Ra as (_ & Hnba & Hbya & Hwfa & _ & _). pose proof Rb as (_ & Hnbb & Hbyb & Hwfb & _ & _).
+    assert (Hl : length s = length t) by (unfold nblocks in *; lia).
+    assert (Hnbeq : num_blocks b = num_blocks a) by lia.
+    intros x [Hx|Hx].
+    + assert (Hv : value_ok x) by (rewrite Forall_forall in Hoka; apply Hoka, Hx).
+      rewrite check_value_eq, (R_check_hash m _ _ Rm (hash_w64 x Hv)), NBm by exact Hv. f_equal.
+      eapply check_at_mono; [apply sub_union_l; assumption|apply Ca, Hx].
+    + assert (Hv : value_ok x) by (rewrite Forall_forall in Hokb; apply Hokb, Hx).
+      rewrite check_value_eq, (R_check_hash m _ _ Rm (hash_w64 x Hv)), NBm, <- Hnbeq by exact Hv. f_equal.
+      eapply check_at_mono; [apply sub_union_r; assumption|apply Cb, Hx].
+  - intros Hne. unfold merge. apply N.eqb_neq in Hne. rewrite Hne. reflexivity.
+Qed.
+
+(* ------------------------------------------------------------------ the bits are those of the Parquet algorithm *)
+
+Lemma fold_insert_hashes vs : forall s,
+  fold_left BloomSpec.insert vs s = fold_left BloomSpec.insert_hash (map hash_value vs) s.
+Proof. induction vs as [|v vs IH]; intro s; [reflexivity|]. cbn [fold_left map]. apply IH. Qed.
+
+Lemma fold_insert_nblocks hs : forall s, nblocks (fold_left BloomSpec.insert_hash hs s) = nblocks s.
+Proof.
+  induction hs as [|h hs IH]; intro s; [reflexivity|]. cbn [fold_left]. rewrite IH.
+  unfold nblocks, BloomSpec.insert_hash. rewrite insert_at_length. reflexivity.
+Qed.
+
+Theorem bits_eq_spec n f vs : create n = Some f -> n <= 2^37 - 32 -> Forall value_ok vs ->
+  let spec := fold_left BloomSpec.insert vs (empty (N.to_nat (blocks_for n))) in
+  exists f', insert_values f vs = Ok f' /\ data f' = to_bytes spec /\
+             forall v, value_ok v -> check_value f' v = Ok (BloomSpec.check spec v).
+Proof.
+  intros Hc Hn Hok spec. pose proof (create_R n f Hc) as HR.
+  destruct (create_spec n f Hc) as (_ & Hnb & _ & _ & _ & Hpos).
+  assert (Hle : blocks_for n <= 2^32).
+  { unfold blocks_for. change (2^37) with 137438953472 in Hn. change (2^32) with 4294967296. lia. }
+  assert (Hne : nblocks (empty (N.to_nat (blocks_for n))) = blocks_for n)
+    by (unfold nblocks; rewrite empty_length, N2Nat.id; reflexivity).
+  destruct (R_insert_hashes _ f _ HR (hashes_w64 vs Hok)) as (f' & E & R' & NB & _).
+  assert (E0 : num_blocks f = nblocks (empty (N.to_nat (blocks_for n)))) by (rewrite Hne; exact Hnb).
+  rewrite E0, ins_seq_spec in R' by (try rewrite Hne; try assumption; apply hashes_w64, Hok).
+  rewrite <- fold_insert_hashes in R'. fold spec in R'.
+  exists f'. rewrite insert_values_eq by exact Hok. split; [exact E|]. split; [apply R'|].
+  intros v Hv. rewrite check_value_eq, (R_check_hash f' spec _ R' (hash_w64 v Hv)) by exact Hv. f_equal.
+  unfold BloomSpec.check, BloomSpec.check_hash.
+  destruct R' as (_ & Hnb' & _). rewrite Hnb'. rewrite model_index_eq; [reflexivity|apply hash_w64, Hv|].
+  unfold spec. rewrite fold_insert_hashes, fold_insert_nblocks, Hne. exact Hle.
+Qed.
+
+Theorem bits_eq_spec_hash n f hs : create n = Some f -> n <= 2^37 - 32 -> Forall w64 hs ->
+  exists f', insert_hashes f hs = Ok f' /\
+             data f' = to_bytes (fold_left BloomSpec.insert_hash hs (empty (N.to_nat (blocks_for n)))).
+Proof.
+  intros Hc Hn Hw. pose proof (create_R n f Hc) as HR.
+  destruct (create_spec n f Hc) as (_ & Hnb & _ & _ & _ & Hpos).
+  assert (Hle : blocks_for n <= 2^32).
+  { unfold blocks_for. change (2^37) with 137438953472 in Hn. change (2^32) with 4294967296. lia. }
+  assert (Hne : nblocks (empty (N.to_nat (blocks_for n))) = blocks_for n)
+    by (unfold nblocks; rewrite empty_length, N2Nat.id; reflexivity).
+  destruct (R_insert_hashes _ f _ HR Hw) as (f' & E & R' & _ & _).
+  assert (E0 : num_blocks f = nblocks (empty (N.to_nat (blocks_for n)))) by (rewrite Hne; exact Hnb).
+  rewrite E0, ins_seq_spec in R' by (try rewrite Hne; assumption).
+  exists f'. split; [exact E|apply R'].
+Qed.
+
+(* ------------------------------------------------------------------ history: the block selection before the repair *)
+
+(** Until the repair the C code selected the block with (hash >> 32) % num_blocks.  With that
+    formula the filter has no false negatives either, but its bits are not those of the Parquet
+    format: another implementation looks in a different block. *)
+Definition old_block_index (hash nblocks : N) : N := N.shiftr hash 32 mod nblocks.
+
+Definition old_insert_hash (f : filter) (hash : N) : res filter :=
+  let off := N.to_nat (usz (old_block_index hash (num_blocks f) * BLOCK_SIZE)) in
+  match BloomModel.block_insert SALT (data f) off (u32 hash) with
+  | Ok d => Ok (set_data f d)
+  | Err c => Err c | Fault x => Fault x
+  end.
+
+Lemma old_block_index_refuted :
+  exists h nb, w64 h /\ 0 < nb /\ nb <= 2^32 /\ old_block_index h nb <> BloomSpec.block_index h nb.
+Proof. exists (2^32), 3. repeat split; vm_compute; congruence. Qed.
+
+Lemma old_bits_eq_spec_refuted :
+  exists n h f f', create n = Some f /\ old_insert_hash f h = Ok f' /\
+    data f' <> to_bytes (BloomSpec.insert_hash (empty (N.to_nat (blocks_for n))) h).
+Proof.
+  exists 96, (2^32). eexists. eexists. split; [vm_compute; reflexivity|].
+  split; [vm_compute; reflexivity|]. vm_compute. discriminate.
+Qed.
+
+(* ------------------------------------------------------------------ non-vacuity *)
+
+Definition sample_values : list value :=
+  [I32 (-7); I64 9223372036854775807; F32 0x7fc00000; F64 0x3ff0000000000000;
+   Bytes [104; 101; 108; 108; 111]; Bytes []; I32 1].
+
+Example sample_values_ok : Forall value_ok sample_values.
+Proof. repeat constructor; unfold byte; lia. Qed.
+
+Example sample_run :
+  exists f f', create 100 = Some f /\ num_bytes f = 128 /\ insert_values f sample_values = Ok f' /\
+    check_value f' (I32 1) = Ok true /\ check_value f' (I32 2) = Ok false /\
+    data f' = to_bytes (fold_left BloomSpec.insert sample_values (empty 4)).
+Proof.
+  eexists. eexists. split; [vm_compute; reflexivity|]. split; [vm_compute; reflexivity|].
+  split; [vm_compute; reflexivity|]. split; [vm_compute; reflexivity|]. split; vm_compute; reflexivity.
+Qed.
+
+Example sample_merge_unequal :
+  exists a b, create 32 = Some a /\ create 64 = Some b /\ merge a b = Err E_CARQUET_ERROR_INVALID_ARGUMENT.
+Proof.
+  eexists. eexists. split; [vm_compute; reflexivity|]. split; vm_compute; reflexivity.
+Qed.
+
+Example sample_reload :
+  exists f, create 1 = Some f /\ read (data f) = Ok f /\
+            read (firstn 31 (data f)) = Err E_CARQUET_ERROR_OUT_OF_MEMORY.
+Proof. eexists. split; [vm_compute; reflexivity|]. split; vm_compute; reflexivity. Qed.
